@@ -453,6 +453,10 @@ func (x *Exec) sameRec(sa, sb *State, t types.Type, ra, rb Term, depth int) Term
 			eq = And(eq, Eq(x.bytesContent(sa, va.T), x.bytesContent(sb, vb.T)))
 			continue
 		}
+		if va.K == VSlice && vb.K == VSlice {
+			eq = And(eq, Eq(va.Ref, vb.Ref), Eq(va.Len, vb.Len))
+			continue
+		}
 		fa, fb := flatten(va), flatten(vb)
 		for i := range fa {
 			eq = And(eq, Eq(fa[i], fb[i]))
